@@ -6,7 +6,13 @@ CONSTANTS
   MaxSpans = 2
   CfgNames = {"a", "ab", "ra", "a_rb", "a_ra", "ab_ra", "ra_rb"}
   Samplers = {"dynamic", "emadynamic", "emathroughput", "windowedthroughput", "totalthroughput"}
-INVARIANTS TypeOK NFSound PermutationInvariant DuplicationInvariant IrrelevantCellsInvariant PairsDistinct OutConsistent
+  GhostFields = {"z"}
+  ProvValSet = {"s:x", "f:2.5"}
+  ProvMaxSpans = 2
+  ProvCfgNames = {"a", "ab", "ra", "a_rb", "a_ra", "ab_ra", "ra_rb"}
+  ProvUTL = {FALSE}
+  ProvMix = "all"
+INVARIANTS TypeOK NFSound PermutationInvariant DuplicationInvariant IrrelevantCellsInvariant PairsDistinct PayloadSound ProvenanceInvariant AnyProvenanceInvariant OutConsistent
 CHECK_DEADLOCK FALSE
 ACTION_CONSTRAINT Dump
 VIEW View
